@@ -403,15 +403,15 @@ def run(chk):
                                kwargs=dict(workers=16 if thorough else 12, timeout=3000 if thorough else 400, heap="12g" if thorough else "8g",
                                            extra=("-fpmem", "0.5") if thorough else ())),
               threading.Thread(target=_tlc_gen, args=(chk, "lattice", "Gen_Smooth", "Gen_Smooth.cfg", res),
-                               kwargs=dict(workers=4, timeout=600)),
+                               kwargs=dict(workers=4, timeout=600, heap="2g")),
               threading.Thread(target=_tlc_gen, args=(chk, "sig", "Gen_FastLenSig", "Gen_FastLenSig_%s.cfg" % tier, res),
-                               kwargs=dict(workers=2, timeout=600))]
+                               kwargs=dict(workers=2, timeout=600, heap="2g"))]
         for t in th:
             t.start()
         # the wrong variants must be rejected (the invariants are not vacuous)
         negs = {}
         for cfg, what in NEGS:
-            r = tlc.run("MC_FastLen", cfg, workers=2, timeout=300)
+            r = tlc.run("MC_FastLen", cfg, workers=2, timeout=300, heap="2g")
             chk.add_tlc("neg:" + cfg, r)
             negs[cfg] = r.violation
             if r.ok or r.violation is None:
